@@ -208,6 +208,11 @@ func VerifC16_FileErrors() {
 	anyBad := false
 	for i, n := range []*vxNode{f1, f2} {
 		bad := n.statErr || n.size > 10*1024*1024 || n.readErr || n.badSrc
+		if !bad {
+			// every function the loader found for the file is reported (the loader stub returns three,
+			// one of them attributed - as a //line directive does - to another file name)
+			vxAssert("every-loaded-function-is-reported", len(out[i].Functions) == 3)
+		}
 		if bad {
 			anyBad = true
 			vxAssert("unanalysable-file-reported-with-error", out[i].ErrorMessage != "" && out[i].File == "r/"+n.name)
